@@ -317,6 +317,14 @@ pub fn run() {
         let pool = if r.chance(0.7) { PhPool::Exact } else { PhPool::Float };
         check_circuit_family("circuit-derived", i, r, pool, cq, cd);
     });
+    // long sparse diagrams: 40-120 spiders, tree-width <= 4
+    let nls = t.pick(600usize, 8_000usize);
+    par_cases("long-sparse", nls, move |r, i| {
+        let pool = if r.chance(0.5) { PhasePool::Exact } else { PhasePool::CliffordHeavy };
+        let gl = r.chance(0.4);
+        let d = gen_long_sparse(r, 40, 120, pool, gl, 0.0);
+        check_desc("long-sparse", i, r, &d);
+    });
     // larger circuits (the evaluator's bucket elimination keeps them cheap: width ~ qubits)
     let (lq, ld, ln) = t.pick((5usize, 30usize, 60usize), (6usize, 60usize, 6_000usize));
     par_cases("circuit-derived-large", ln, move |r, i| {
